@@ -49,23 +49,35 @@ Proof.
   exact (grid_arith za zb (Zpos d) (Zpos 1000000000) ltac:(lia) Hd H).
 Qed.
 
-Definition grid_input (d : positive) (weights : list Q) (capacity : Q) : bool :=
-  (Zpos d <? 1000000000)%Z && on_gridb d capacity && forallb (on_gridb d) weights.
-
-Lemma knap_q_feasible_grid d values weights capacity minimize r :
-  Qle_bool 0 capacity = true -> grid_input d weights capacity = true ->
-  knap_q values weights capacity minimize = Some r ->
-  knap_feasible_q 0 values weights capacity (qsel r) (qobj r).
+Lemma pick_on_grid d weights sel : forallb (on_gridb d) weights = true -> on_grid d (sumQ (pickQ weights sel)).
 Proof.
-  intros Hcap Hg Hr. unfold grid_input in Hg.
-  apply andb_prop in Hg. destruct Hg as [Hg Hws]. apply andb_prop in Hg. destruct Hg as [Hd Hc].
-  apply Z.ltb_lt in Hd. apply on_gridb_sound in Hc.
-  destruct (knap_q_feasible values weights capacity minimize r Hcap Hr) as [H1 [H2 [H3 [H4 H5]]]].
-  unfold knap_feasible_q. repeat split; try assumption.
-  rewrite Qplus_0_r. apply (grid_tight d); try assumption.
-  apply grid_sum. unfold pickQ. apply Forall_forall. intros q Hq.
+  intros Hws. apply grid_sum. unfold pickQ. apply Forall_forall. intros q Hq.
   apply in_map_iff in Hq. destruct Hq as [i [<- _]].
   destruct (Nat.lt_ge_cases i (length weights)) as [Hi|Hi].
   - apply on_gridb_sound. rewrite forallb_forall in Hws. apply Hws. apply nth_In. exact Hi.
   - rewrite nth_overflow by exact Hi. apply grid_zero.
+Qed.
+
+
+Lemma knap_q_feasible_grid0 d values weights capacity minimize r :
+  Qle_bool 0 capacity = true -> (Zpos d < Zpos 1000000000)%Z -> on_grid d capacity -> forallb (on_gridb d) weights = true ->
+  knap_q values weights capacity minimize = Some r ->
+  knap_feasible_q 0 values weights capacity (qsel r) (qobj r).
+Proof.
+  intros Hcap Hd Hc Hws Hr.
+  destruct (knap_q_feasible values weights capacity minimize r Hcap Hr) as [H1 [H2 [H3 [H4 H5]]]].
+  pose proof (grid_tight d _ _ Hd (pick_on_grid d weights (qsel r) Hws) Hc H4) as H6.
+  unfold knap_feasible_q. split; [exact H1|]. split; [exact H2|]. split; [exact H3|]. split; [|exact H5].
+  apply (Qle_trans _ _ _ H6). rewrite Qplus_0_r. apply Qle_refl.
+Qed.
+
+Lemma knap_q_feasible_grid d values weights capacity minimize r :
+  Qle_bool 0 capacity = true ->
+  (d <? 1000000000)%positive = true -> on_gridb d capacity = true -> forallb (on_gridb d) weights = true ->
+  knap_q values weights capacity minimize = Some r ->
+  knap_feasible_q 0 values weights capacity (qsel r) (qobj r).
+Proof.
+  intros Hcap Hd Hc Hws Hr.
+  apply Pos.ltb_lt in Hd. apply on_gridb_sound in Hc.
+  exact (knap_q_feasible_grid0 d values weights capacity minimize r Hcap (Pos2Z.pos_lt_pos _ _ Hd) Hc Hws Hr).
 Qed.
